@@ -213,6 +213,14 @@ SEC_F = ["types::SecretParams::{from_slice,to_writer,write_len,string_to_key_id,
 C05_MUT = [
     H("c08_usage_255", "c08_secret", "thorough", 1500, "locked secret key material with S2K usage octet 255 (AES128, simple S2K): parser keeps the usage octet, selects the 16-bit checksum (not SHA-1)", SEC_F[:2], "4 concrete header octets + 22 symbolic octets (iv, data)", mem=28),
     H("c08_usage_254", "c08_secret", "thorough", 1500, "same with usage octet 254: octet kept, SHA-1 check selected", SEC_F[:2], "4 concrete header octets + 22 symbolic octets", mem=28),
+] + [
+    H("c05_literal_header_%s" % n, "c05_lit", tier, 600, "literal data header (%s): parse + serialise is the identity on the wire octets, write_len truthful, exactly the header consumed" % what,
+      ["packet::LiteralDataHeader::{try_from_reader,to_writer,write_len}"], "name and date octets symbolic")
+    for n, tier, what in [("b_0", "quick", "mode b, empty name"), ("u_2", "quick", "mode u, 2-octet name"), ("t_2", "thorough", "mode t, 2-octet name"), ("other_2", "quick", "unknown mode 0x01, 2-octet name")]
+] + [
+    H("c05_literal_header_trunc_%d" % n, "c05_lit", tier, 600, "literal data header truncated to %d octets: error" % n, ["packet::LiteralDataHeader::try_from_reader"], "6 symbolic octets")
+    for n, tier in [(3, "thorough"), (7, "quick")]
+] + [
     H("c08_checksum_decision", "c08_checksum", "quick", 900, "PlainSecretParams::try_from_reader (v4, X25519) on 32 arbitrary secret octets + 2 arbitrary checksum octets: accepted iff checksum == sum of the octets mod 65536 (real arithmetic)", ["types::PlainSecretParams::{try_from_reader,compare_checksum_simple}", "crypto::checksum::SimpleChecksum"], "34 symbolic octets"),
     H("c08_unlock_usage_255", "c08_unlock", "thorough", 1500, "EncryptedSecretParams::unlock for S2K usage 255 (KDF, CFB, SHA-1 compression modelled): accepted iff the 16-bit sum matches; the unlocked X25519 octets are the protected octets", ["types::EncryptedSecretParams::unlock (MalleableCfb arm)", "types::PlainSecretParams::try_from_reader"], "34 symbolic octets", mem=24),
     H("c08_checksum_trailing", "c08_checksum", "thorough", 900, "same with one trailing octet: refused", ["types::PlainSecretParams::try_from_reader"], "35 symbolic octets"),
@@ -222,7 +230,7 @@ C05_MUT = [
     H("c05_unhashed_push_remove_2octet_len", "c05_sigmut", "quick", 900, "same with a 196-octet subpacket (2-octet subpacket length)", ["packet::Signature::{unhashed_subpacket_push,unhashed_subpacket_insert,unhashed_subpacket_remove}", "packet::Subpacket::write_len"], "original header length symbolic"),
 ]
 PROPS["C05"] = {
-    "inject": [("src/lib.rs", "c05_codec"), ("src/lib.rs", "c17_codec"), ("src/packet/signature/types.rs", "c05_sigmut"), ("src/lib.rs", "c08_secret"), ("src/lib.rs", "c08_checksum"), ("src/lib.rs", "c08_unlock")],
+    "inject": [("src/lib.rs", "c05_codec"), ("src/lib.rs", "c17_codec"), ("src/packet/signature/types.rs", "c05_sigmut"), ("src/lib.rs", "c08_secret"), ("src/lib.rs", "c08_checksum"), ("src/lib.rs", "c08_unlock"), ("src/lib.rs", "c05_lit")],
     "mem_gb": 12,
     "level_text": "Bounded model checking of the real parsers/serialisers: for every byte string of the stated lengths the solver "
                   "shows parse/serialise are mutually inverse, write_len equals the octets written and canonical inputs "
